@@ -653,4 +653,9 @@ def main(pid, fn, level="model_checking"):
         rc = c.finish()
     except Undecided as e:
         rc = c.abort(e)
+    except SystemExit:
+        raise
+    except BaseException as e:  # a fault of the machinery is never a verdict about the code
+        import traceback
+        rc = c.abort(Undecided("internal error of the check: %s\n%s" % (e, traceback.format_exc()[-3000:])))
     sys.exit(rc)
